@@ -91,11 +91,13 @@ package tm
 
 //@ func commitOrRollback
 //@   prop C04
+//@   modifies ghost.commit_sends, ghost.commit_acked, ghost.commit_xid, ghost.rollback_sends, ghost.rollback_acked, ghost.rollback_xid, ghost.last_send_failed, ghost.ctx_done
 //@   requires ctx != nil
 //@   let cv := ctxvalue(ctx, seataContextVariable)
 //@   requires isT(cv, *ContextVariable) && cv.(*ContextVariable) != nil
 //@   requires ghost.commit_sends == 0 && ghost.rollback_sends == 0 && !ghost.commit_acked && !ghost.rollback_acked
 //@   let role := cv.(*ContextVariable).TxRole
+//@   modifies cv.(*ContextVariable).TxStatus
 //@   ensures decision-commit: role == Launcher && isSuccess ==> called("(*GlobalTransactionManager).Commit#1") && !called("(*GlobalTransactionManager).Commit#2") && !called("(*GlobalTransactionManager).Rollback#1") && ghost.rollback_sends == 0
 //@   ensures decision-rollback: role == Launcher && !isSuccess ==> called("(*GlobalTransactionManager).Rollback#1") && !called("(*GlobalTransactionManager).Rollback#2") && !called("(*GlobalTransactionManager).Commit#1") && ghost.commit_sends == 0
 //@   ensures participant: role != Launcher ==> !called("(*GlobalTransactionManager).Commit#1") && !called("(*GlobalTransactionManager).Rollback#1") && ghost.commit_sends == 0 && ghost.rollback_sends == 0
@@ -118,7 +120,7 @@ package tm
 //@   let xid0 := v.Xid
 //@   let present := v.Xid != ""
 //@   let pg := gc.Propagation
-//@   modifies v.Xid, v.XidCopy, v.TxName, v.TxStatus, v.TxRole, ghost.begin_sends, ghost.last_send_failed, ghost.begin_xid
+//@   modifies v.GlobalTransaction, ghost.begin_sends, ghost.last_send_failed, ghost.begin_xid
 //@   ensures no-second-phase-traffic: ghost.commit_sends == old(ghost.commit_sends) && ghost.rollback_sends == old(ghost.rollback_sends)
 //@   ensures required-join: pg == Required && present ==> result == nil && ghost.begin_sends == old(ghost.begin_sends) && v.Xid == xid0 && v.TxRole == Participant && v.TxName == gc.Name
 //@   ensures supports-join: pg == Supports && present ==> result == nil && ghost.begin_sends == old(ghost.begin_sends) && v.Xid == xid0 && v.TxRole == Participant && v.TxName == gc.Name
@@ -135,6 +137,7 @@ package tm
 
 //@ func WithGlobalTx
 //@   prop C04 C07
+//@   modifies ghost.all, heap.all
 //@   requires ctx != nil
 //@   requires ghost.commit_sends == 0 && ghost.rollback_sends == 0 && ghost.begin_sends == 0 && ghost.other_sends == 0 && !ghost.commit_acked && !ghost.rollback_acked && ghost.biz_calls == 0 && !ghost.biz_panicked
 //@   ensures C04/decision-once: !called("commitOrRollback#2")
